@@ -30,10 +30,9 @@ type AuthenticateASCII struct {
 
 // Handle is the main entry for ascii flows.
 func (a *AuthenticateASCII) Handle(response tq.Response, request tq.Request) {
-	if reply := a.authenticateContinueStop(request); reply != nil {
-		response.ReplyWithContext(request.Context, reply, a.recorderWriter)
-		return
-	}
+	// request is the authenticate start packet. it carries no abort flag, so it must not be
+	// read as a continue packet: a long start packet can also decode as a continue whose
+	// flags octet (the start's user_len) has the abort bit set.
 	a.RecordCtx(&request, tq.ContextUser, tq.ContextRemoteAddr, tq.ContextPort, tq.ContextPrivLvl)
 	if a.username == "" {
 		// client didn't send us a username to start with
@@ -47,8 +46,8 @@ func (a *AuthenticateASCII) Handle(response tq.Response, request tq.Request) {
 		)
 		return
 	}
-	// clients can provide a user up front, we must look before we can decide what to do next
-	a.getUsername(response, request)
+	// clients can provide a user up front, go straight to the password prompt
+	a.promptPassword(response, request)
 }
 
 // getUsername collects a username
@@ -90,6 +89,11 @@ func (a *AuthenticateASCII) getUsername(response tq.Response, request tq.Request
 		}
 		a.username = string(body.UserMessage)
 	}
+	a.promptPassword(response, request)
+}
+
+// promptPassword asks for the password once the username is known
+func (a *AuthenticateASCII) promptPassword(response tq.Response, request tq.Request) {
 	a.RecordCtx(&request, tq.ContextUserMsg)
 	response.Next(tq.HandlerFunc(a.getPassword))
 	response.Reply(
